@@ -76,6 +76,32 @@ Reach(front, seen) == LET nxt == UNION {LeftCalls(r) : r \in front} \ seen IN
 OnLeftCycle(r) == r \in Reach(LeftCalls(r), LeftCalls(r))
 LeftRecursive == {r \in RuleNames : OnLeftCycle(r)}
 
+\* ---- left recursion HIDDEN behind a call to a rule that can match empty (excluded by C03 and C16's proviso: the documented
+\* semantics does not define it; the runtime bounds it with a memo guard).  NullableC follows calls.
+RECURSIVE NullableC(_, _)
+RECURSIVE NullSeqC(_, _, _)
+NullableC(e, seen) == CASE e.op = "call" -> IF e.name \in seen \/ ~HasRule(e.name) THEN FALSE ELSE NullableC(RuleExp(e.name), seen \cup {e.name})
+                        [] e.op = "seq" -> NullSeqC(e.es, 1, seen)
+                        [] e.op = "alt" -> \E i \in 1..Len(e.es) : NullableC(e.es[i], seen)
+                        [] e.op \in {"group", "skipgroup", "named", "namedlist", "ovr", "ovrlist", "plus", "skipto"} -> NullableC(e.e, seen)
+                        [] e.op = "join" -> ~e.plus \/ NullableC(e.e, seen)
+                        [] OTHER -> Nullable(e)
+NullSeqC(es, i, seen) == IF i > Len(es) THEN TRUE ELSE NullableC(es[i], seen) /\ NullSeqC(es, i + 1, seen)
+RECURSIVE LCh(_)
+RECURSIVE LChSeq(_, _)
+LCh(e) == CASE e.op = "call" -> {e.name}
+            [] e.op = "seq" -> LChSeq(e.es, 1)
+            [] e.op = "alt" -> UNION {LCh(e.es[i]) : i \in 1..Len(e.es)}
+            [] e.op = "join" -> LCh(e.e) \cup (IF NullableC(e.e, {}) THEN LCh(e.sep) ELSE {})
+            [] e.op \in Unary -> LCh(e.e)
+            [] OTHER -> {}
+LChSeq(es, i) == IF i > Len(es) THEN {} ELSE LCh(es[i]) \cup (IF NullableC(es[i], {}) THEN LChSeq(es, i + 1) ELSE {})
+LeftCallsH(r) == IF HasRule(r) THEN LCh(RuleExp(r)) \cap RuleNames ELSE {}
+RECURSIVE ReachH(_, _)
+ReachH(front, seen) == LET nxt == UNION {LeftCallsH(r) : r \in front} \ seen IN
+                       IF nxt = {} THEN seen ELSE ReachH(nxt, seen \cup nxt)
+HiddenLeftRecursion == \E r \in RuleNames : r \in ReachH(LeftCallsH(r), LeftCallsH(r)) /\ ~OnLeftCycle(r)
+
 \* ---- Dev_StaticLeader (KF-C03-1): the implementation grows seeds only at the rules marked `lrec` by its static analysis (one
 \* leader per cycle).  When an unmarked rule of a left cycle can be entered before the marked leader of that cycle, the documented
 \* semantics (grow at the rule through which the cycle is entered) and the implementation may part ways.
